@@ -111,3 +111,29 @@ contract('parso.python.prefix.split_prefix', kind='generator',
                                    'value != "" or (spacing == "" and start == 0)'],
                         decreases='len(leaf.prefix) - start')},
          props=['C09', 'C01'])
+
+
+# ---- dedent_if_necessary (closure of tokenize_lines; C09 "indentation-balanced"): the indentation stack stays strictly
+# increasing from 0, one DEDENT is yielded per popped level, at most one ERROR_DEDENT (then the top is lowered to the new
+# column), afterwards the top is <= the column; indents[-2] never fails.
+INC = ('forall(lambda k: implies(0 < k and k < len(indents), indents[k - 1] < indents[k]), trigger=lambda k: indents[k])')
+contract('parso.python.tokenize.tokenize_lines.dedent_if_necessary', kind='generator',
+         closure_of='parso.python.tokenize.tokenize_lines',
+         params={'start': 'int'}, yields='ref:PythonToken',
+         free={'indents': 'list:int', 'lnum': 'int', 'spos': 'pos'},
+         requires=['indents is not None', 'len(indents) >= 1', 'indents[0] == 0', INC, 'start >= 0'],
+         yield_acc={'ndedent': 'ite(y.type is DEDENT, 1, 0)', 'nerr': 'ite(y.type is ERROR_DEDENT, 1, 0)'},
+         yield_ensures=['y is not None', 'y.string == ""', 'y.prefix == ""', 'y.type is DEDENT or y.type is ERROR_DEDENT'],
+         ensures=['len(indents) >= 1', 'indents[0] == 0', INC, 'indents[len(indents) - 1] <= start',
+                  'ndedent == old(len(indents)) - len(indents)', 'nerr <= 1',
+                  # levels that stay are unchanged, except that an ERROR_DEDENT lowers the top to the new column
+                  'forall(lambda k: implies(0 <= k and k < len(indents) - 1, indents[k] == old(indents[k])), trigger=lambda k: indents[k])',
+                  'implies(nerr == 0, forall(lambda k: implies(0 <= k and k < len(indents), indents[k] == old(indents[k])), '
+                  'trigger=lambda k: indents[k]))',
+                  'implies(nerr == 1, indents[len(indents) - 1] == start)'],
+         loops={0: dict(invariant=['len(indents) >= 1', 'indents[0] == 0', INC, 'nerr == 0',
+                                   'ndedent == old(len(indents)) - len(indents)',
+                                   'forall(lambda k: implies(0 <= k and k < len(indents), indents[k] == old(indents[k])), trigger=lambda k: indents[k])'],
+                        decreases='len(indents)', lists_modified=['indents'])},
+         globals_={'DEDENT': 'ref:PythonTokenTypes', 'ERROR_DEDENT': 'ref:PythonTokenTypes'},
+         lists=['indents'], props=['C09'])
